@@ -1,0 +1,20 @@
+//go:build verif
+
+// Ghost lemma functions for the verifier under /verif (never called; compiled
+// only with -tags verif). Their contracts are in zz_verif_contracts.go.
+
+package rotation
+
+import (
+	"context"
+
+	"github.com/hashicorp/nodeenrollment"
+	"github.com/hashicorp/nodeenrollment/types"
+)
+
+// lemmaTrustContinuity: one rotation call seen from a history in which the
+// previous successful call happened at instant t0 (s and delta are the ghost
+// parameters of the node clause); see the contract.
+func lemmaTrustContinuity(ctx context.Context, storage nodeenrollment.Storage, t0, s, delta int64, opt ...nodeenrollment.Option) (*types.RootCertificates, error) {
+	return RotateRootCertificates(ctx, storage, opt...)
+}
